@@ -41,7 +41,7 @@ OWN_TAGS = ["none", "same-as-inherited", "extends-inherited", "own-keys-end-with
 DESTS = ["missing-no-template", "missing-template", "header-only", "header-blank", "block-nl", "block-no-nl",
          "block-two-blank", "block-then-section", "ends-with-section-header", "mentions-zid",
          "ends-with-section-header-no-nl", "missing-template-ending-in-section", "same-page",
-         "existing-and-matching-a-template", "block-crlf"]
+         "existing-and-matching-a-template", "block-crlf", "last-note-has-blank-only-line"]
 MARKERS = [None, "x", "~"]
 
 
@@ -129,6 +129,9 @@ def build_dest(kind):
     if kind == "existing-and-matching-a-template":
         # the page exists AND a template pattern matches its name: it must be left as it is
         return "# Dest page\n\n- 240201#D1 dest note one\n- 240202#D2 dest note two\n", {r"dest\.zo": "dest.zot"}
+    if kind == "last-note-has-blank-only-line":
+        # the destination's last note contains an indented line that holds only blanks
+        return "# Dest page\n\n- 240201#D1 dest note one\n  \n  * bullet after a blank-looking line\n", {}
     if kind == "block-crlf":
         # Windows line endings in the destination: every old line keeps its bytes
         return "# Dest page\r\n\r\n- 240201#D1 dest note one\r\n- 240202#D2 dest note two\r\n", {}
